@@ -631,6 +631,72 @@ func main() {
 		lks = append(lks, lk{parts[0], parts[1], strings.Join(calls, ",")})
 	}
 
+	// who calls a privileged handler directly (not through baseapp's MsgServiceRouter, whose handler wrapper runs
+	// ValidateBasic first)?  Syntactic: any call `<x>.<Name>(ctx, msg)` with two arguments in non-test fx-core code
+	// under x, app, ante where Name is the name of a privileged fx-core handler.
+	hnames := map[string]bool{}
+	for _, r := range rows {
+		if !strings.Contains(r.File, "@") {
+			hnames[r.Name] = true
+		}
+	}
+	type dc struct{ File, Func, Callee string }
+	var dcs []dc
+	for _, top := range []string{"x", "app", "ante"} {
+		_ = filepath.Walk(filepath.Join(repo, top), func(path string, info os.FileInfo, err error) error {
+			if err != nil || info.IsDir() || !strings.HasSuffix(path, ".go") || strings.HasSuffix(path, "_test.go") ||
+				strings.HasSuffix(path, ".pb.go") || strings.HasSuffix(path, ".pb.gw.go") || strings.Contains(path, "/mock/") ||
+				strings.Contains(path, "/testutil/") || strings.Contains(path, "/client/") {
+				return nil
+			}
+			af, perr := parser.ParseFile(fset, path, nil, 0)
+			if perr != nil {
+				return nil
+			}
+			rel, _ := filepath.Rel(repo, path)
+			for _, d := range af.Decls {
+				fd, ok := d.(*ast.FuncDecl)
+				if !ok || fd.Body == nil {
+					continue
+				}
+				ast.Inspect(fd.Body, func(n ast.Node) bool {
+					if c, ok := n.(*ast.CallExpr); ok && len(c.Args) == 2 {
+						if sel, ok := c.Fun.(*ast.SelectorExpr); ok && hnames[sel.Sel.Name] {
+							dcs = append(dcs, dc{rel, fd.Name.Name, src(sel.X) + "." + sel.Sel.Name})
+						}
+					}
+					return true
+				})
+			}
+			return nil
+		})
+	}
+	sort.Slice(dcs, func(i, j int) bool {
+		if dcs[i].File != dcs[j].File {
+			return dcs[i].File < dcs[j].File
+		}
+		return dcs[i].Func+dcs[i].Callee < dcs[j].Func+dcs[j].Callee
+	})
+	// baseapp's router wrapper: ValidateBasic is called before the service method (file pinned like the other dependency files)
+	routerVB := false
+	{
+		dir := resolveDir("github.com/cosmos/cosmos-sdk/baseapp")
+		path := filepath.Join(dir, "msg_service_router.go")
+		bz, err := os.ReadFile(path)
+		if err != nil {
+			die("cannot read baseapp/msg_service_router.go: %v", err)
+		}
+		txt := string(bz)
+		i, j := strings.Index(txt, "m.ValidateBasic()"), strings.Index(txt, "methodHandler(handler, ctx")
+		routerVB = i > 0 && j > i
+		label := path
+		if modcache != "" && strings.HasPrefix(path, modcache+"/") {
+			label = strings.TrimPrefix(path, modcache+"/")
+		}
+		h := sha256.Sum256(bz)
+		depFiles[label] = hex.EncodeToString(h[:])
+	}
+
 	// app/keepers/keepers.go: what authAddr is
 	authExpr, authUses := "", 0
 	{
@@ -693,6 +759,15 @@ func main() {
 		fmt.Fprintf(&sb, "(%s, %s)", coqStr(f), coqStr(depFiles[f]))
 	}
 	sb.WriteString("].\n\n")
+	sb.WriteString("(* calls of a privileged fx-core handler by name from non-test code under x, app, ante: (file, function, callee) *)\nDefinition gen_direct_callers : list (string * string * string) :=\n [")
+	for i, d := range dcs {
+		if i > 0 {
+			sb.WriteString(";\n  ")
+		}
+		fmt.Fprintf(&sb, "(%s, %s, %s)", coqStr(d.File), coqStr(d.Func), coqStr(d.Callee))
+	}
+	sb.WriteString("].\n\n")
+	fmt.Fprintf(&sb, "(* baseapp's MsgServiceRouter handler wrapper calls msg.ValidateBasic() before the service method *)\nDefinition gen_router_validates_basic : bool := %s.\n\n", coqBool(routerVB))
 	fmt.Fprintf(&sb, "Definition gen_authaddr_expr : string := %s.\n", coqStr(authExpr))
 	fmt.Fprintf(&sb, "Definition gen_authaddr_uses : Z := %d.\n", authUses)
 	if err := os.WriteFile(filepath.Join(out, "Gen_Authority.v"), []byte(sb.String()), 0o644); err != nil {
